@@ -63,7 +63,7 @@ func c04(c *Ctx) {
 		"(int32 wrap-around modelled). The unencrypted reader and transport.ReadMsg are checked the same way."
 	r.NotDecided = []string{"'every single-bit flip is refused' beyond the fact that acceptance requires the SHA-1 comparison over exactly the returned bytes (modulo SHA-1 collisions)",
 		"the sticky decoder error after the inner Pop*s is never consulted: with the length bound in place it cannot cause acceptance (recorded as an assumption)"}
-	r.Rule("R04.G", "acceptance guards: key id, msg_key over decrypted[0:32+len], msg_id parity {1,3} (encrypted, plain, transport), exact length of plain packets, errors propagated", 8)
+	r.Rule("R04.G", "acceptance guards: key id, msg_key over decrypted[0:32+len], msg_id parity {1,3} (encrypted, plain, transport), exact length of plain packets, errors propagated, body = declared-length bytes", 9)
 	r.Rule("R04.B", "every allocation / slice sized by packet data is bounded on all reachable grid points (negative, oversized, truncated)", 3)
 	r.Rule("R04.E", "every exit of the three readers that returns no message returns a certainly non-nil error", 12)
 	tr := an.NewTracer()
@@ -140,6 +140,32 @@ func c04(c *Ctx) {
 			res, used := residueReach(f, isID, succ[0])
 			okPar := used && !res[0] && res[1] && !res[2] && res[3]
 			r.Check(okPar, "R04.G", "enc:msg-id-parity", c.pos(f.Pos()), sprintf("accepting exit reachable for msg_id mod 4 = %v (must be exactly {1,3})", residues(res)))
+		}
+		// the body handed out is exactly the declared-length part of the window msg_key covers (not "the rest")
+		nBody := 0
+		for _, b := range f.Blocks {
+			for _, in := range b.Instrs {
+				st, ok := in.(*ssa.Store)
+				if !ok {
+					continue
+				}
+				fa, ok := st.Addr.(*ssa.FieldAddr)
+				if !ok || an.FieldName(fa.X.Type(), fa.Field) != "messages.Encrypted.Msg" {
+					continue
+				}
+				nBody++
+				okBody := false
+				detail := tr.OriginString(st.Val)
+				if call, ok := st.Val.(*ssa.Call); ok && strings.HasSuffix(an.CalleeName(call.Common()), "tl.Decoder).PopRawBytes") && len(call.Call.Args) == 2 {
+					so := tr.OriginString(call.Call.Args[1])
+					okBody = strings.Contains(so, "tl.Decoder).PopInt") || strings.Contains(so, "tl.Decoder).PopUint")
+					detail = "PopRawBytes(" + simplifyOrigin(so) + ")"
+				}
+				r.Check(okBody, "R04.G", "enc:body-is-declared-length", c.pos(st.Pos()), "Encrypted.Msg ← "+simplifyOrigin(detail)+": the body must be the declared number of bytes after the header — everything behind 32+len (padding, appended blocks) is not covered by msg_key")
+			}
+		}
+		if nBody == 0 {
+			r.Undecide("R04.G", "enc:body-is-declared-length", c.pos(f.Pos()), "no store to Encrypted.Msg in DeserializeEncrypted")
 		}
 		c04Bounds(c, f, tr)
 	}
